@@ -97,6 +97,14 @@ struct vsbx_ilp32g : vsbx_ilp32
   static constexpr bool grant = true;
   static constexpr const char* name = "ILP32/MASK+grant";
 };
+// ILP32 whose 2-argument membership hook compares the size-aligned blocks of the two addresses (the idiom of the in-repo
+// test backend and of backends with power-of-two aligned heaps) instead of looking both up: two application addresses in
+// different 64 KiB blocks are "not in the same sandbox".
+struct vsbx_ilp32m : vsbx_ilp32
+{
+  static constexpr bool mask_same = true;
+  static constexpr const char* name = "ILP32/MASK+mask-membership";
+};
 struct vsbx_grant_policy { static inline thread_local bool accept_deny = false; static inline thread_local bool accept_grant = false; };
 struct vsbx_narrow
 {
@@ -156,6 +164,8 @@ namespace vsbx_detail {
 template<typename C, typename = void> struct has_grant : std::false_type {};
 template<typename C> struct has_grant<C, std::enable_if_t<C::grant>> : std::true_type {};
 struct grant_tag { using can_grant_deny_access = void; };
+template<typename C, typename = void> struct has_mask_same : std::false_type {};
+template<typename C> struct has_mask_same<C, std::enable_if_t<C::mask_same>> : std::true_type {};
 struct no_grant_tag {};
   // 2-argument and 3-argument forms of impl_is_in_same_sandbox.  RLBox picks
   // by counting the parameters of the (non-overloaded) static member.
@@ -167,8 +177,14 @@ struct no_grant_tag {};
       vsbx_ev.last_same_p1 = reinterpret_cast<uintptr_t>(p1);
       vsbx_ev.last_same_p2 = reinterpret_cast<uintptr_t>(p2);
       vsbx_ev.same_queries++;
-      return vsbx_region_table::find(reinterpret_cast<uintptr_t>(p1)) ==
-             vsbx_region_table::find(reinterpret_cast<uintptr_t>(p2));
+      if constexpr (has_mask_same<Cfg>::value) {
+        // every region of this backend type has the same power-of-two size and is aligned to it
+        uintptr_t mask = ~(static_cast<uintptr_t>(rlbox_vsbx_sandbox<Cfg>::region_size) - 1);
+        return (reinterpret_cast<uintptr_t>(p1) & mask) == (reinterpret_cast<uintptr_t>(p2) & mask);
+      } else {
+        return vsbx_region_table::find(reinterpret_cast<uintptr_t>(p1)) ==
+               vsbx_region_table::find(reinterpret_cast<uintptr_t>(p2));
+      }
     }
   };
   template<typename Cfg>
